@@ -28,7 +28,8 @@ LedgerOf(s) == [n \in {s[i].a : i \in DOMAIN s} |->
                       store |-> Pairs(r.store)]]
 ReqOf(s) == [n \in {s[i].a : i \in DOMAIN s} |-> s[CHOOSE i \in DOMAIN s : s[i].a = n].v]
 EffOf(e) == [req |-> ReqOf(e.req), burnt |-> e.burnt, term |-> e.term, deployed |-> {e.deployed[i] : i \in DOMAIN e.deployed},
-             sh |-> IF e.sh.ran THEN [ran |-> TRUE, ok |-> e.sh.ok, writes |-> Pairs(e.sh.writes),
+             sh |-> IF e.sh.ran THEN [ran |-> TRUE, ok |-> e.sh.ok,
+                                      writes |-> {<<e.sh.writes[j][1], e.sh.writes[j][2], e.sh.writes[j][3]>> : j \in DOMAIN e.sh.writes},
                                       keep |-> {e.sh.keep[i] : i \in DOMAIN e.sh.keep}, moved |-> e.sh.moved,
                                       req |-> ReqOf(e.sh.req), dest |-> e.sh.dest]
                     ELSE NoShadow]
